@@ -150,9 +150,16 @@ def self_member_lit(prog, l):
     if not clo:
         return None
     r = closure_returns(prog, clo[0][1]) or []
+    caps = dict(clo[0][2])
+    if len(r) == 1 and want == "Eq" and r[0][1][0] == "call" and r[0][1][1].endswith("::contains") and len(r[0][1][2]) == 2:
+        # any(|list| list.contains(&self.id)) over several collections
+        def own(x):
+            return (x[0] == "field" and x[2] == "RaftCore.id") or (x[0] == "upvar" and any(y[0] == "field" and y[2] == "RaftCore.id" for y in walk(caps.get(x[1], ("?",)))))
+        if any(own(x) for x in walk(r[0][1][2][1])):
+            return l[1][2][0]
+        return None
     if len(r) != 1 or r[0][1][0] != "bin" or r[0][1][1] != want:
         return None
-    caps = dict(clo[0][2])
     def is_own_id(x):
         if x[0] == "field" and x[2] == "RaftCore.id":
             return True
